@@ -486,7 +486,8 @@ func (s *State) defaultCell(o *Object, path string, t types.Type, mode ObjMode) 
 	case ModeSym:
 		return s.it.symValue(o, path, t)
 	}
-	return &Top{T: t}
+	// opaque memory: an unknown value that depends on "the contents of this object"
+	return s.it.topOf(t, Deps{s.it.SymFor(o, "[opaque]")})
 }
 
 // readLeaf reads one scalar cell.
